@@ -1338,6 +1338,17 @@ impl DcpsDomainParticipant {
             .any(|x| subscription_handle.as_ref() == &x.key().value)
         {
             data_writer.remove_matched_subscription(&subscription_handle);
+            data_writer
+                .transport_writer
+                .delete_matched_reader(Guid::from(<[u8; 16]>::from(subscription_handle)));
+            if data_writer
+                .transport_writer
+                .is_change_acknowledged(data_writer.last_change_sequence_number)
+            {
+                for n in data_writer.wait_for_acknowledgments_notification.drain(..) {
+                    n.send(Ok(()));
+                }
+            }
 
             data_writer
                 .status_condition
@@ -1868,6 +1879,9 @@ impl DcpsDomainParticipant {
             .any(|x| &x.key().value == publication_handle.as_ref())
         {
             data_reader.remove_matched_publication(&publication_handle);
+            data_reader
+                .transport_reader
+                .delete_matched_writer(Guid::from(<[u8; 16]>::from(publication_handle)));
         }
     }
 
